@@ -233,6 +233,7 @@ func constVal(file *ast.File, name string) string {
 func main() {
 	repo := flag.String("repo", "/repo", "repository root")
 	out := flag.String("out", "", "output Lean file")
+	code := flag.String("code", "", "output Lean file for the translated integer code (Gen/Code.lean)")
 	flag.Parse()
 	fset := token.NewFileSet()
 	parse := func(rel string) *ast.File {
@@ -242,6 +243,15 @@ func main() {
 			os.Exit(1)
 		}
 		return f
+	}
+	if *code != "" {
+		if err := os.WriteFile(*code, []byte(translateCode(parse)), 0o644); err != nil {
+			fmt.Fprintln(os.Stderr, "extract:", err)
+			os.Exit(1)
+		}
+		if *out == "" {
+			return
+		}
 	}
 	var b strings.Builder
 	b.WriteString("/- GENERATED by harness/cmd/extract from /repo's working tree on every run. Do not edit. -/\n")
